@@ -152,6 +152,14 @@ func runAnimEncoder(id, mode string, in animEncInput) (file []byte, line tvEncLi
 			verifhook.SetChoice(n, "")
 		}
 	}()
+	if mode == "alpha" {
+		// three histories out of four: the alpha encoder of the lossy frames tries a single prediction filter
+		// (horizontal, vertical, gradient) instead of the ones its estimate picks, so every filter codes every plane
+		if ff := (len(in.Pics) + in.CW + 3*in.CH) % 4; ff > 0 {
+			verifhook.SetOverride("alpha.filter-map", 1<<uint(ff), true)
+			defer verifhook.SetOverride("alpha.filter-map", 0, false)
+		}
+	}
 	e := animation.NewEncoder(&buf, in.CW, in.CH, &o)
 	if e == nil {
 		return nil, line, fmt.Errorf("NewEncoder returned nil")
